@@ -31,7 +31,8 @@ func TestMain(m *testing.M) {
 		Level: "exploration",
 		Rule: "rapid-generated PLY files from an independent reference encoder: vertex properties in any order from the recognised groups (x y z, nx ny nz, red green blue [alpha], s t, scale_*, rot_*, f_dc_*, opacity) plus 0..2 unrecognised scalars, one scalar type per group from uchar/int/float/double with alias spellings, comment/obj_info lines, LF or CRLF header endings, optional face element with count type uchar/int/uint, index type int/uint, triangles and quads mixed, optional texcoord float list before or after the index list; ascii / little-endian / big-endian body; float32-exact values. " +
 			"Oracle: the mesh computed from the description by the specification (vertex i carries record i, 8-bit values /255, quads give fan triangles (0,1,2),(0,2,3), per-face texcoords compared per corner). " +
-			"Non-trivial = position group not first, or >= 1 non-float type, or an unrecognised property, or a quad. Distinct by case JSON.",
+			"Non-trivial = position group not first, or >= 1 non-float type, or an unrecognised property, or a quad. Distinct by case JSON. " +
+			"Sub-check huge-files (hand-built files of 2^24+8 vertices with faces naming vertex numbers beyond 2^24; every case non-trivial).",
 		Assumptions: []string{
 			"one scalar type per property group (the reader documents mixed types inside a group as unsupported); only uchar/int/float/double on vertices, uchar/int/uint counts, int/uint indices, float texcoord list",
 			"uchar-typed scalar properties (opacity, unrecognised) are generated for the binary encodings only: known finding ascii-uchar-scalar-raw (counted as excluded_known); uchar colour groups are generated for all encodings",
